@@ -184,3 +184,11 @@ Theorem C09_model_source_pins :
   vt_src_count_literal_zones = pinned_vt_src_count_literal_zones /\
   vt_write_validate_calls = pinned_vt_write_validate_calls /\ vt_cli_validate_calls = pinned_vt_cli_validate_calls.
 Proof. exact model_source_pins. Qed.
+
+(* ---- source-text pins (generated by harness/pinsets.py) ---- *)
+(* every function of these modules is, text for text (comments and docstrings excluded), the one the models of this
+   property were written against and validated against: harness/translate/srcdigest_t.py, Src/Pin_*.v *)
+From OV Require Import Gen.SrcDigestGen Src.Pin_core_lexer Src.Pin_core_parser Src.Pin_core_emitter Src.Pin_core_ast_nodes Src.Pin_core_validator Src.Pin_core_constraints Src.Pin_core_schema_extractor Src.Pin_schemas_loader Src.Pin_mcp_validate Src.Pin_mcp_write.
+Theorem C09_pin_source_text :
+  src_core_lexer_pinned /\ src_core_parser_pinned /\ src_core_emitter_pinned /\ src_core_ast_nodes_pinned /\ src_core_validator_pinned /\ src_core_constraints_pinned /\ src_core_schema_extractor_pinned /\ src_schemas_loader_pinned /\ src_mcp_validate_pinned /\ src_mcp_write_pinned.
+Proof. exact (conj src_core_lexer_pinned_ok (conj src_core_parser_pinned_ok (conj src_core_emitter_pinned_ok (conj src_core_ast_nodes_pinned_ok (conj src_core_validator_pinned_ok (conj src_core_constraints_pinned_ok (conj src_core_schema_extractor_pinned_ok (conj src_schemas_loader_pinned_ok (conj src_mcp_validate_pinned_ok src_mcp_write_pinned_ok))))))))). Qed.
